@@ -38,7 +38,7 @@ class C08(vlib.Check):
     rule = ("seeded non-empty databases of the three kinds (bits 1..2^32, any level and name, str/None/duplicate fingerprint "
             "names, int/float/bool/str property columns), built by add_fingerprints or by from_array on sorted / unsorted CSR; "
             "savez+load and deprecated save+load (.fps.bz2 / .fps.gz / .fps) for 1-3 cycles compared field by field; savetxt "
-            "(.txt / .gz / .bz2, names on/off) parsed line by line. Non-trivial: at least two rows, one non-empty; distinct by case.")
+            "(.txt / .gz / .bz2, names on/off) parsed line by line; text exports of up to 2^25 characters (thorough 2^26), save/load of 70 000 - 300 000 rows. Non-trivial: at least two rows, one non-empty; distinct by case.")
     trusted_base = ["NumPy savez/load (npz), pickle, gzip/bz2/smart_open, fixed-width unicode arrays (compared on every run)"]
 
     def tmp(self):
@@ -114,6 +114,11 @@ class C08(vlib.Check):
                            [(300, 16384), (4500, 1024), (70000, 64), (9000, 1024), (40, 2 ** 17), (1050, 16384), (4200, 4096), (2100, 16384), (70000, 512), (4200, 16384)]):
             self.count("t:bigtxt")
             yield {"t": "bigtxt", "rows": rows + rng.randrange(50), "bits": bits, "seed": rng.randrange(10 ** 6), "ext": rng.choice([".txt", ".txt.gz"])}
+        # a whole library: more than 2^16 / 2^17 rows of full-length fingerprints with a property column, saved and loaded twice
+        for n_ in ([70000] if self.tier == "quick" else [70000, 140000, 300000]):
+            self.count("t:bigrt")
+            yield {"t": "bigrt", "rows": n_ + rng.randrange(100), "kind": rng.choice(KINDS), "bits": rng.choice([2 ** 32, 4096]), "seed": rng.randrange(10 ** 6),
+                   "how": rng.choice(["savez", "savez", "save.fps.gz"])}
         # one path written several times with databases of different sizes (large, then small, then medium), each read back
         for _ in range(6 if self.tier == "quick" else 60):
             self.count("t:overwrite")
@@ -157,6 +162,40 @@ class C08(vlib.Check):
                 return {"key": "savetxt-wrong:large:bits", "what": "line %d of %d is not row %d's bit string" % (i, len(lines), i)}
             if nm != fpn[i]:
                 return {"key": "savetxt-wrong:large:name", "what": "line %d of a %d x %d export carries the name %r, row %d is named %r" % (i, case["rows"], case["bits"], nm, i, fpn[i])}
+        return None
+
+    def _prop_bigrt(self, case):
+        db, arr, fpn = self._random_db(case["kind"], case["rows"], case["bits"], case["seed"])
+        db.set_prop("row", np.arange(case["rows"]))
+        db.set_prop("tag", np.array(["t%d" % (i % 7) for i in range(case["rows"])]))
+        p = os.path.join(self.tmp(), "bigrt%d%s" % (case["seed"], ".fpz" if case["how"] == "savez" else case["how"][4:]))
+        cur = db
+        try:
+            for k in range(2):
+                try:
+                    if case["how"] == "savez":
+                        cur.savez(p)
+                    else:
+                        cur.save(p)
+                    cur = FingerprintDatabase.load(p)
+                except Exception as e:  # noqa: BLE001
+                    return {"key": "saveload-raises:%s:large:%s" % (case["how"].split(".")[0], type(e).__name__), "what": "cycle %d of a %d-row database raised %r" % (k, case["rows"], e)}
+                bad = None
+                if cur.array.shape != db.array.shape or cur.array.dtype != db.array.dtype or (cur.array != db.array).nnz:
+                    bad = "matrix"
+                elif list(cur.fp_names) != list(db.fp_names):
+                    bad = "names"
+                elif {k_: [int(x) for x in v] for k_, v in cur.fp_names_to_indices.items() if len(v)} != {k_: [int(x) for x in v] for k_, v in db.fp_names_to_indices.items() if len(v)}:
+                    bad = "name index"
+                elif sorted(cur.props) != sorted(db.props) or any(cur.props[c].dtype.kind != db.props[c].dtype.kind or cur.props[c].tolist() != db.props[c].tolist() for c in db.props):
+                    bad = "property columns"
+                elif (cur.fp_type, cur.level, cur.name) != (db.fp_type, db.level, db.name):
+                    bad = "type / level / name"
+                if bad:
+                    return {"key": "saveload-differs:%s:large" % case["how"].split(".")[0], "what": "cycle %d of a %d-row x %d-bit %s database: %s differ" % (k, case["rows"], case["bits"], case["kind"], bad)}
+        finally:
+            if os.path.exists(p):
+                os.remove(p)
         return None
 
     def _prop_overwrite(self, case):
@@ -293,7 +332,7 @@ class C08(vlib.Check):
 
     # ------------------------------------------------------------------ correspondence
     def impl(self, case):
-        if case["t"] in ("bigtxt", "overwrite"):
+        if case["t"] in ("bigtxt", "overwrite", "bigrt"):
             return {"ok": "see prop"}
 
         def go():
@@ -308,7 +347,7 @@ class C08(vlib.Check):
         return attempt(go)
 
     def model_ops(self, case):
-        if case["t"] in ("bigtxt", "overwrite"):
+        if case["t"] in ("bigtxt", "overwrite", "bigrt"):
             return [{"op": "fpr.hash", "words": []}]
         ops = self._model_build(case)
         if case["t"] == "txt":
@@ -318,7 +357,7 @@ class C08(vlib.Check):
         return ops
 
     def model_answer(self, case, answers):
-        if case["t"] in ("bigtxt", "overwrite"):
+        if case["t"] in ("bigtxt", "overwrite", "bigrt"):
             return {"ok": "see prop"}
         nb = 3 + len(case.get("setprops", []))
         if any("err" in a or "driver_error" in a for a in answers[:nb]):
@@ -338,6 +377,8 @@ class C08(vlib.Check):
             return self._prop_bigtxt(case)
         if case["t"] == "overwrite":
             return self._prop_overwrite(case)
+        if case["t"] == "bigrt":
+            return self._prop_bigrt(case)
         try:
             db = self._build(case)
         except Exception as e:  # noqa: BLE001
@@ -374,7 +415,7 @@ class C08(vlib.Check):
         return None
 
     def nontrivial(self, case, a_impl):
-        if case["t"] in ("bigtxt", "overwrite"):
+        if case["t"] in ("bigtxt", "overwrite", "bigrt"):
             return vlib.canon(case)
         if len(case["fps"]) >= 2 and any(f["fp"]["idx"] for f in case["fps"]) and "ok" in a_impl:
             return vlib.canon(case)
